@@ -1082,6 +1082,8 @@ pub struct World<'v> {
     pub pruned: bool,
     pub states: u32,
     pub dead_since: Option<(u32, u32, u32)>,
+    /// the dead handle of the current connection has been probed with invalid requests
+    pub dead_probed: bool,
     pub outcome_sig: u64,
     pub last_connect_failed: bool,
     pub need_reconnect_drain: bool,
@@ -1370,6 +1372,7 @@ impl<'v> World<'v> {
                     }
                 }
                 self.dead_since = None;
+                self.dead_probed = false;
                 if draining {
                     self.drain_connected(&mut conn, id, true);
                     true
@@ -2160,6 +2163,46 @@ impl<'v> World<'v> {
         self.note_outcome((op, res));
         if op != OpK::Sleep && op != OpK::Age {
             self.after_op_c11(conn, id, op, res, before);
+            if self.dead_since.is_some() && !self.dead_probed && self.cfg.props.contains(&"C11") {
+                self.dead_probed = true;
+                self.probe_dead_handle_with_invalid_requests(conn, id);
+            }
+        }
+    }
+
+    /// Requests that would be refused locally on a live handle, made on a dead one: the answer is the disconnected
+    /// error all the same, and nothing touches the transport.
+    fn probe_dead_handle_with_invalid_requests(&mut self, conn: &mut Connection<'_, '_, VirtualIo>, id: usize) {
+        fn once<F: Future>(fut: F) -> Option<F::Output> {
+            let mut fut = std::pin::pin!(fut);
+            let waker = noop_waker();
+            let mut cx = Context::from_waker(&waker);
+            match fut.as_mut().poll(&mut cx) {
+                Poll::Ready(v) => Some(v),
+                Poll::Pending => None,
+            }
+        }
+        let before = self.io_counters(id);
+        let bad = [Property::ServerReference("x")];
+        let no_filters: [minimq::TopicFilter<'_>; 0] = [];
+        let no_topics: [&str; 0] = [];
+        let mut results: Vec<(&'static str, Option<Res>)> = Vec::new();
+        results.push(("subscribe to an empty list", once(conn.subscribe(&no_filters, &[])).map(|r| r.map(|_| ()).map_err(|e| Res::from_err(&e)).err().unwrap_or(Res::Ok))));
+        results.push(("unsubscribe from an empty list", once(conn.unsubscribe(&no_topics, &[])).map(|r| r.map(|_| ()).map_err(|e| Res::from_err(&e)).err().unwrap_or(Res::Ok))));
+        results.push(("subscribe with an illegal property", once(conn.subscribe(&[minimq::TopicFilter::new("f")], &bad)).map(|r| r.map(|_| ()).map_err(|e| Res::from_err(&e)).err().unwrap_or(Res::Ok))));
+        results.push(("unsubscribe with an illegal property", once(conn.unsubscribe(&["f"], &bad)).map(|r| r.map(|_| ()).map_err(|e| Res::from_err(&e)).err().unwrap_or(Res::Ok))));
+        for q in [QoS::AtMostOnce, QoS::AtLeastOnce, QoS::ExactlyOnce] {
+            results.push(("publish with an illegal property", once(conn.publish(minimq::Publication::bytes("t", b"x").qos(q).properties(&bad))).map(|r| r.map(|_| ()).map_err(|e| Res::from_pub(&e)).err().unwrap_or(Res::Ok))));
+        }
+        let after = self.io_counters(id);
+        let mut sh = self.sh.borrow_mut();
+        for (what, r) in results {
+            if r != Some(Res::Disconnected) {
+                sh.oracle.flag("C11", "dead-handle-result", "invalid-request", format!("{} on a dead handle returned {:?}", what, r));
+            }
+        }
+        if after != before {
+            sh.oracle.flag("C11", "dead-handle-io", "invalid-request", format!("invalid requests on a dead handle touched the transport: {:?} -> {:?}", before, after));
         }
     }
 
@@ -2683,6 +2726,7 @@ pub fn run_inner(
         pruned: false,
         states: 0,
         dead_since: None,
+        dead_probed: false,
         outcome_sig: 0,
         last_connect_failed: false,
         need_reconnect_drain: false,
